@@ -596,6 +596,10 @@ func (vc *FnVC) ret(x *ssa.Return) {
 	}
 	m := vc.cur
 	env := vc.newEnv(m, vc.mem0)
+	env.resolve = vc.blockResolver(vc.curBlock, m) // locals in scope at this return
+	for k, v := range vc.params {
+		env.names[k] = v // in ensures a parameter name denotes its value on entry, even if the body reassigns or shadows it
+	}
 	sig := vc.fn.Signature
 	for i, r := range x.Results {
 		tv := TV{t: vc.val(r), ty: sig.Results().At(i).Type()}
